@@ -366,36 +366,36 @@ json block2j(CdnsBlockRead& b, bool tables, bool render, uint64_t& render_bytes)
     j["counts"] = {b.get_qr_count(), b.get_aec_count(), b.get_mm_count(), b.get_item_count()};
     if (tables) j["tables"] = tables2j(b);
     if (render) {
-        render_bytes += b.string().size();
-        render_bytes += b.m_block_preamble.string().size();
-        if (b.m_block_statistics) render_bytes += b.m_block_statistics->string().size();
-        for (auto& c : b.m_classtype) render_bytes += ClassType(c).string().size();
-        for (auto& s : b.m_qr_sig) render_bytes += QueryResponseSignature(s).string().size();
-        for (auto& q : b.m_qrr) render_bytes += Question(q).string().size();
-        for (auto& r : b.m_rr) render_bytes += RR(r).string().size();
-        for (auto& m : b.m_malformed_message_data) render_bytes += MalformedMessageData(m).string().size();
-        for (auto& q : b.m_query_responses) render_bytes += q.string().size();
-        for (auto& m : b.m_malformed_messages) render_bytes += m.string().size();
-        for (auto& a : b.m_address_event_counts) { AddressEventCount t = a.first; render_bytes += t.string().size(); }
+        racc(render_bytes, b.string());
+        racc(render_bytes, b.m_block_preamble.string());
+        if (b.m_block_statistics) racc(render_bytes, b.m_block_statistics->string());
+        for (auto& c : b.m_classtype) racc(render_bytes, ClassType(c).string());
+        for (auto& s : b.m_qr_sig) racc(render_bytes, QueryResponseSignature(s).string());
+        for (auto& q : b.m_qrr) racc(render_bytes, Question(q).string());
+        for (auto& r : b.m_rr) racc(render_bytes, RR(r).string());
+        for (auto& m : b.m_malformed_message_data) racc(render_bytes, MalformedMessageData(m).string());
+        for (auto& q : b.m_query_responses) racc(render_bytes, q.string());
+        for (auto& m : b.m_malformed_messages) racc(render_bytes, m.string());
+        for (auto& a : b.m_address_event_counts) { AddressEventCount t = a.first; racc(render_bytes, t.string()); }
     }
     bool end = false;
     json qa = json::array(), aa = json::array(), ma = json::array();
     while (true) {
         GenericQueryResponse q = b.read_generic_qr(end);
         if (end) break;
-        if (render) render_bytes += q.string().size();
+        if (render) racc(render_bytes, q.string());
         qa.push_back(qr2j(q));
     }
     while (true) {
         GenericAddressEventCount a = b.read_generic_aec(end);
         if (end) break;
-        if (render) render_bytes += a.string().size();
+        if (render) racc(render_bytes, a.string());
         aa.push_back(aec2j(a));
     }
     while (true) {
         GenericMalformedMessage m = b.read_generic_mm(end);
         if (end) break;
-        if (render) render_bytes += m.string().size();
+        if (render) racc(render_bytes, m.string());
         ma.push_back(mm2j(m));
     }
     j["qr"] = qa; j["aec"] = aa; j["mm"] = ma;
